@@ -1636,7 +1636,7 @@ impl Node {
         arc_self: &Arc<Node>,
     ) -> Result<(ChannelId, Option<ChannelSlot>), Status> {
         let channel_id = self.keys_manager.get_channel_id();
-        self.find_or_create_channel(channel_id, arc_self)
+        self.find_or_create_channel(channel_id, arc_self, None)
     }
 
     /// Create a new channel from a seed identifier (aka a dbid) and
@@ -1660,16 +1660,8 @@ impl Node {
         peer_id: &[u8; 33], // TODO figure out a more specific type
         arc_self: &Arc<Node>,
     ) -> Result<(ChannelId, Option<ChannelSlot>), Status> {
-        if self.get_state().dbid_high_water_mark >= dbid {
-            return Err(policy_error(
-                "policy-channel-original-channel-id-reuse",
-                format!("original channel id {} is potentially being reused", dbid),
-            )
-            .into());
-        }
-
         let channel_id = ChannelId::new_from_peer_id_and_oid(peer_id, dbid);
-        self.find_or_create_channel(channel_id, arc_self)
+        self.find_or_create_channel(channel_id, arc_self, Some(dbid))
     }
 
     /// Create a new channel with a specified channel id.
@@ -1680,18 +1672,31 @@ impl Node {
         channel_id: ChannelId,
         arc_self: &Arc<Node>,
     ) -> Result<(ChannelId, Option<ChannelSlot>), Status> {
-        self.find_or_create_channel(channel_id, arc_self)
+        self.find_or_create_channel(channel_id, arc_self, None)
     }
 
     fn find_or_create_channel(
         &self,
         channel_id: ChannelId,
         arc_self: &Arc<Node>,
+        dbid: Option<u64>,
     ) -> Result<(ChannelId, Option<ChannelSlot>), Status> {
         // Read the chain height before taking the channels lock: setup_channel and the
         // heartbeat take the tracker lock first and the channels lock second.
         let blockheight = arc_self.get_tracker().height();
         let mut channels = self.get_channels();
+        // The high-water mark is checked while the channels lock is held: forget_channel
+        // raises it under that lock, so a concurrent forget cannot slip in between the
+        // check and the creation of the channel.
+        if let Some(dbid) = dbid {
+            if self.get_state().dbid_high_water_mark >= dbid {
+                return Err(policy_error(
+                    "policy-channel-original-channel-id-reuse",
+                    format!("original channel id {} is potentially being reused", dbid),
+                )
+                .into());
+            }
+        }
         let policy = self.policy();
         if channels.len() >= policy.max_channels() {
             // FIXME(3) we don't garbage collect channels
